@@ -40,6 +40,10 @@ TOUR = [
     'REDIM A(3)\r\nA(3) = 1\r\nREDIM A(5)\r\nPRINT A(3); Fact&(5)\r\nFUNCTION Fact& (N%)\r\n  IF N% <= 1 THEN\r\n    Fact& = 1\r\n  ELSE\r\n    Fact& = N% * Fact&(N% - 1)\r\n  END IF\r\nEND FUNCTION\r\n',
     # names with dots, long names, suffixes
     'my.var = 1\r\nmy.var$ = "s"\r\nLongVariableName123% = 4\r\nx! = 1\r\nx# = 2\r\nx& = 3\r\nPRINT my.var; my.var$; LongVariableName123%; x!; x#; x&\r\n',
+    # statements in their shortest form, the last thing on their line
+    'ON ERROR GOTO H\r\nX = 1 / Z\r\nPRINT\r\nLPRINT\r\nCLOSE\r\nGOSUB W\r\nLeave\r\nDEF SEG\r\nVIEW PRINT\r\nEND\r\nW:\r\nRETURN\r\nH:\r\nZ = 1\r\nRESUME\r\n'
+    'SUB Leave\r\n  FOR I = 1 TO 2\r\n    EXIT SUB\r\n  NEXT\r\nEND SUB\r\n',
+    'ON ERROR RESUME NEXT\r\nX = 1 / Z\r\nPRINT ERR\r\nON ERROR GOTO 0\r\nDO\r\nLOOP UNTIL 1\r\nWHILE 0\r\nWEND\r\nFOR I = 1 TO 1\r\nNEXT I\r\nSELECT CASE 1\r\nEND SELECT\r\nSYSTEM\r\n',
     # comments and REM
     "' first\r\nPRINT 1 ' trailing\r\n' alone\r\nPRINT 2\r\nPRINT 3 ' another\r\n",
 ]
